@@ -90,6 +90,10 @@ PeerSends ==
           \/ n >= 2 /\ msg' = [h EXCEPT !.pre = Tail(h.pre), !.sids = <<1>> \o h.sids, !.tamper = "no-cellbase"]
           \/ Len(h.pre) >= 3 /\ msg' = [h EXCEPT !.pre = <<h.pre[1], h.pre[Len(h.pre)]>> \o SubSeq(h.pre, 2, Len(h.pre) - 1), !.tamper = "unordered"]
           \/ Len(h.pre) >= 2 /\ msg' = [h EXCEPT !.pre = [j \in 1..Len(h.pre) |-> IF j = Len(h.pre) THEN <<n + 1, h.pre[j][2]>> ELSE h.pre[j]], !.tamper = "out-of-range"]
+          \* an index stated twice (sorted, but not STRICTLY increasing): the last prefilled entry repeats its predecessor's index
+          \/ Len(h.pre) >= 2 /\ msg' = [h EXCEPT !.pre = [j \in 1..Len(h.pre) |-> IF j = Len(h.pre) THEN <<h.pre[j - 1][1], h.pre[j][2]>> ELSE h.pre[j]],
+                                                   !.tamper = "dup-prefilled-index"]
+          \/ Len(h.pre) >= 2 /\ msg' = [h EXCEPT !.pre = h.pre \o <<h.pre[Len(h.pre)]>>, !.tamper = "dup-prefilled-entry"]
           \/ Len(h.sids) >= 1 /\ msg' = [h EXCEPT !.sids = h.sids \o <<h.sids[1]>>, !.tamper = "dup-short-id"]
           \/ Len(h.pre) >= 2 /\ msg' = [h EXCEPT !.sids = h.sids \o <<h.pre[2][2]>>, !.tamper = "prefilled-in-short-ids"]
   /\ phase' = "local" /\ UNCHANGED <<n, hasUncle, hasExt, pool, known, verdict, r1, ans, averdict, r2>>
